@@ -1,17 +1,19 @@
 """C13 — keys and scales map degrees to in-key notes; the nearest note is nearest.
 Theorems: coq/Props/C13.v (general, for arbitrary ascending scales, + the built-in table regenerated from
 the source).  Correspondence: Key.get / __contains__ / nearest_note / tonal patterns / note-name functions
-of the repository against the Coq model, exhaustively on the property's finite domain and on random user
-scales.  Oracle: independent pitch-class-set check of every implementation result."""
+of the repository against the Coq model, exhaustively on the property's finite domain, on random user
+scales, and in sessions (several keys per process that share names / tonics / scale objects, built, re-configured
+and queried in varying order; tonal patterns over key progressions under melodies with rests).
+Oracle: independent pitch-class-set check of every implementation result (step i against key i)."""
 from common import *
 
 PROP = "C13"
 META = {
  "engine": "F-pure-functions",
- "text": "Coq theorems (Props/C13.v, closed under the global context) prove for ARBITRARY ascending scales, octave sizes, tonics and all integer degrees/notes: the degree formula, strict monotonicity, degree-in-key, pitch-class invariance of membership, and that nearest_note is in key with no in-key note strictly closer; the built-in scale table is regenerated from the source on every run and proved to lie in that domain; note-name/MIDI-number round trips are proved by complete enumeration. The model is tied to /repo by a correspondence check run on every invocation: Key.get/__contains__/nearest_note, PFilterByKey/PNearestNoteInKey/PDegree and the util name functions are evaluated on the property's complete finite domain (all named scales x 12 tonics x notes 0..127 x degrees -64..64) plus random user scales, and compared inside Coq (vm_compute) with the model; an independent pitch-class-set oracle judges every implementation result and supplies the failing input.",
- "note": "Trusted: Coq kernel + VM; gen_tables.py; the Python harness; that Python int //, % are floor division (Z.div/Z.modulo). Modelled not verified: nothing float; Key built from names uses Scale.byname/note_name_to_midi_note (covered by the correspondence only for built-in names). nearest_note is compared by distance and membership, so a different tie-break is not an alarm.",
+ "text": "Coq theorems (Props/C13.v, closed under the global context) prove for ARBITRARY ascending scales, octave sizes, tonics and all integer degrees/notes: the degree formula, strict monotonicity, degree-in-key, pitch-class invariance of membership, and that nearest_note is in key with no in-key note strictly closer; the built-in scale table is regenerated from the source on every run and proved to lie in that domain; note-name/MIDI-number round trips are proved by complete enumeration. The model is tied to /repo by a correspondence check run on every invocation: Key.get/__contains__/nearest_note, PFilterByKey/PNearestNoteInKey/PDegree and the util name functions are evaluated on the property's complete finite domain (all named scales x 12 tonics x notes 0..127 x degrees -64..64) plus random user scales, and compared inside Coq (vm_compute) with the model; an independent pitch-class-set oracle judges every implementation result and supplies the failing input. Further theorems (C13_progression_aligned, C13_filter/snap/degree/rest_progression) cover the tonal patterns when the KEY is itself a pattern: every step consumes one note and one key, rests included, so output i is in / nearest in / the degree of key i; C13_session_frame/_reconfigure say that the definition of a key is the last one given to that key, whatever other keys exist (a scale's name is not part of the model). The check runs sessions - one process each - in which several keys that agree in name, tonic, octave size or scale object but differ in semitones are built, re-configured and queried in varying order, every key again after all others were built and queried, and the tonal patterns run over PSequence-s of those keys under melodies with rests; every result is judged against the key's own semitones (step i against key i) and compared with the model evaluated on the definition the model derives from the session.",
+ "note": "Trusted: Coq kernel + VM; gen_tables.py; the Python harness; that Python int //, % are floor division (Z.div/Z.modulo). Modelled not verified: nothing float; Key built from names uses Scale.byname/note_name_to_midi_note (covered by the correspondence only for built-in names). nearest_note is compared by distance and membership, so a different tie-break is not an alarm. Compared with the model only, not judged by the oracle: Key.semitones, the number of values a tonal pattern yields when one stream ends first, keys after attribute assignment (key.tonic = / key.scale =). PSequence(keys, r) yielding keys*r is taken from its documentation.",
 }
-HEADER = """From Isobar Require Import Base.Prelude Tonal.Key Generated.Tables.
+HEADER = """From Isobar Require Import Base.Prelude Tonal.Key Tonal.Progression Generated.Tables.
 From Coq Require Import String.
 Definition degs := zrange (-64) 129.
 Definition notes := zrange 0 128.
@@ -27,6 +29,14 @@ Definition snap_ok (k : key) (xs rs : list (option Z)) : bool :=
      | Some x, Some r => key_contains k r && (Z.abs (r - x) =? Z.abs (nearest_note k x - x))
      | _, _ => false end) xs rs.
 Definition oz := option_eqb Z.eqb.
+Fixpoint rep {A} (n : nat) (l : list A) : list A := match n with O => [] | S m => l ++ rep m l end.
+Definition untonic (k : key) : key := mkKey 0 (kscale k).
+Definition snap_prog_ok (n : nat) (mel : list (option Z)) (ks : ksrc) (rs : list (option Z)) : bool :=
+  Nat.eqb (List.length rs) (List.length (tonal_nextn snap_step n (mkT mel ks))) &&
+  forallb (fun i => match nth_error rs i, nth_error mel i, ksrc_nth ks i with
+     | Some None, Some None, Some _ => true
+     | Some (Some r), Some (Some x), Some k => key_contains k r && (Z.abs (r - x) =? Z.abs (nearest_note k x - x))
+     | _, _, _ => false end) (seq 0 (List.length rs)).
 """
 
 
@@ -174,6 +184,489 @@ def run_keys(run, keys, exhaustive_domain):
             "coq_term": terms[i][:2000]}, found_input=False)
 
 
+# ---- sessions: several keys in one process; key progressions -----------------------------------------
+# One session = one interpreter.  Scales and keys are built in varying order - unnamed (every Scale([...])
+# without a name is called "unnamed scale"), under a shared user name, under the name of a built-in scale,
+# built-in ones - on few tonics and octave sizes, so that many keys of a session agree in everything a
+# lazy cache might be keyed by (name, tonic, octave size, scale object) and differ in their semitones.
+# Every key is queried after others were built and queried; some are re-configured (tonic / scale
+# assigned) afterwards.  The tonal patterns are run with a constant key and with a PSequence of keys (a
+# progression) under melodies with rests: output i is judged against key i.
+PATTERN_FNS = ("pfilter", "psnap", "pdegree", "chain")
+PATTERN_SITE = {"pfilter": "PFilterByKey", "psnap": "PNearestNoteInKey", "pdegree": "PDegree",
+                "chain": "PNearestNoteInKey(PFilterByKey)"}
+
+
+def rand_scale(rng, o):
+    n = rng.randint(1, min(12, o))
+    return sorted(rng.sample(range(o), n))
+
+
+def rand_melody(rng, pool, length):
+    """notes (or degrees) with rests: leading / trailing / consecutive rests all occur"""
+    density = rng.choice([0.1, 0.25, 0.5])
+    mel = [None if rng.random() < density else rng.choice(pool) for _ in range(length)]
+    if rng.random() < 0.3:
+        mel[0] = None
+    if rng.random() < 0.3:
+        i = rng.randrange(length - 1)
+        mel[i] = mel[i + 1] = None
+    if all(x is None for x in mel):
+        mel[-1] = rng.choice(pool)
+    if all(x is not None for x in mel):
+        mel[rng.randrange(length)] = None
+    return mel
+
+
+def gen_session(rng, info):
+    builtin = [b for b in info["scales"] if b[2] == 12]
+    o_main = 12 if rng.random() < 0.7 else rng.randint(5, 24)
+    osizes = [o_main] if rng.random() < 0.75 else [o_main, rng.randint(5, 24)]
+    tonics = rng.sample(range(-14, 26), rng.randint(1, 3))
+    shared_name = rng.choice(["verif-A", "user", "unnamed scale", rng.choice(builtin)[0]])
+    base = rng.randint(-30, 110)
+    notes = list(range(base, base + o_main)) + [rng.randint(-200, 300) for _ in range(6)]
+    rng.shuffle(notes)
+    degrees = sorted(rng.sample(range(-30, 31), 14))
+    ops, slots, sids = [], [], []
+
+    def new_scale():
+        sid = len(sids)
+        o = rng.choice(osizes)
+        u = rng.random()
+        if u < 0.12 and o == 12:
+            b = rng.choice(builtin)
+            ops.append({"op": "scale", "id": sid, "how": "builtin", "name": b[0], "semis": b[1], "osize": 12})
+        elif u < 0.62:
+            ops.append({"op": "scale", "id": sid, "how": "unnamed", "semis": rand_scale(rng, o), "osize": o})
+        else:
+            ops.append({"op": "scale", "id": sid, "how": "named", "name": shared_name, "semis": rand_scale(rng, o), "osize": o})
+        sids.append(sid)
+        return sid
+
+    def key_src(as_scale=False):
+        if rng.random() < 0.25:
+            spec = {"const": rng.choice(slots)}
+            avail = None
+        else:
+            seq = [rng.choice(slots) for _ in range(rng.randint(2, 4))]
+            spec = {"seq": seq, "repeats": 1}
+            avail = len(seq)
+        if as_scale:
+            spec["as_scale"] = True
+        return spec, avail
+
+    def pattern_query():
+        fn = rng.choice(PATTERN_FNS)
+        length = rng.randint(6, 16)
+        mel = rand_melody(rng, degrees if fn == "pdegree" else notes, length)
+        spec, avail = key_src(as_scale=(fn == "pdegree" and rng.random() < 0.25))
+        if avail is not None:
+            u = rng.random()   # the progression outlasts the melody (mostly), ends with it, or ends first
+            spec["repeats"] = (length // avail + 2) if u < 0.7 else max(1, -(-length // avail)) if u < 0.85 else max(1, length // avail - 1)
+        n = length + 2 if rng.random() < 0.8 else rng.randint(1, length)
+        op = {"op": "q", "fn": fn, "xs": mel, "keys": spec, "n": n}
+        if fn == "chain":
+            spec2, avail2 = key_src()
+            if avail2 is not None:
+                spec2["repeats"] = length // avail2 + 2
+            op["keys2"] = spec2
+        if rng.random() < 0.3 and n > 1:
+            op["split"] = rng.randint(1, n - 1)
+        ops.append(op)
+
+    def direct_query(slot, fn=None):
+        fn = fn or rng.choice(["contains", "contains", "nearest", "nearest", "get", "getitem", "semitones"])
+        if fn == "semitones":
+            ops.append({"op": "q", "slot": slot, "fn": fn})
+        else:
+            ops.append({"op": "q", "slot": slot, "fn": fn, "xs": degrees if fn in ("get", "getitem") else notes})
+
+    nslots = rng.randint(4, 9)
+    while len(slots) < nslots:
+        for _ in range(rng.randint(1, 3)):
+            sid = rng.choice(sids) if sids and rng.random() < 0.2 else new_scale()   # the same scale object twice
+            slot = len(slots)
+            ops.append({"op": "key", "slot": slot, "scale": sid, "tonic": rng.choice(tonics)})
+            slots.append(slot)
+        for _ in range(rng.randint(1, 3)):
+            direct_query(rng.choice(slots))
+        if rng.random() < 0.6:
+            pattern_query()
+        if rng.random() < 0.2:
+            slot = rng.choice(slots)
+            if rng.random() < 0.5:
+                ops.append({"op": "retune", "slot": slot, "tonic": rng.choice(tonics + [rng.randint(-14, 26)])})
+            else:
+                ops.append({"op": "rescale", "slot": slot, "scale": rng.choice(sids) if rng.random() < 0.5 else new_scale()})
+            direct_query(slot)
+    order = list(slots)
+    rng.shuffle(order)
+    for slot in order:            # every key once more, after all the others were built and queried
+        direct_query(slot, "contains")
+        direct_query(slot, rng.choice(["nearest", "get"]))
+    for _ in range(2):
+        pattern_query()
+    return {"ops": ops, "notes": notes, "degrees": degrees}
+
+
+class SessionState:
+    """what the harness knows about a session while walking its operations (independent of the model)"""
+    def __init__(self):
+        self.scales, self.keys, self.coq_ops = {}, {}, []
+
+    def apply(self, op):
+        k = op["op"]
+        if k == "scale":
+            self.scales[op["id"]] = {"semis": op["semis"], "osize": op["osize"],
+                                     "name": op.get("name"), "how": op["how"]}
+        elif k == "key":
+            sc = self.scales[op["scale"]]
+            self.keys[op["slot"]] = {"semis": sc["semis"], "osize": sc["osize"], "tonic": op["tonic"], "judged": True}
+            self.coq_ops.append("SBuild %d (mkKey %s (mkScale %s %s))" % (op["slot"], zlit(op["tonic"]), zlist(sc["semis"]), zlit(sc["osize"])))
+        elif k == "retune":
+            # a key re-configured after construction: the property text speaks about "every key", not about
+            # assigning to its attributes, so from here on this key is compared with the model only
+            self.keys[op["slot"]] = dict(self.keys[op["slot"]], tonic=op["tonic"], judged=False)
+            self.coq_ops.append("SRetune %d %s" % (op["slot"], zlit(op["tonic"])))
+        elif k == "rescale":
+            sc = self.scales[op["scale"]]
+            self.keys[op["slot"]] = dict(self.keys[op["slot"]], semis=sc["semis"], osize=sc["osize"], judged=False)
+            self.coq_ops.append("SRescale %d (mkScale %s %s)" % (op["slot"], zlist(sc["semis"]), zlit(sc["osize"])))
+
+    def key_at(self, spec, i):
+        """definition of the key in force at step i of a pattern query (None: the key pattern has ended)"""
+        if "const" in spec:
+            d = self.keys[spec["const"]]
+        else:
+            seq = spec["seq"]
+            if i >= len(seq) * spec["repeats"]:
+                return None
+            d = self.keys[seq[i % len(seq)]]
+        return dict(d, tonic=0) if spec.get("as_scale") else d
+
+
+def inkey_fn(d):
+    o = d["osize"]
+    pcs = {(s + d["tonic"]) % o for s in d["semis"]}
+    return lambda x: (x % o) in pcs
+
+
+def judge_nearest(inkey, x, y, who):
+    if type(y) is not int:
+        return ("nearest-raises", x, "%s(%r) = %r" % (who, x, y))
+    if not inkey(y):
+        return ("nearest-not-in-key", x, "%s(%d) = %d is not in the key" % (who, x, y))
+    if inkey(x) and y != x:
+        return ("nearest-moves-in-key-note", x, "%s(%d) = %d" % (who, x, y))
+    dist = abs(y - x)
+    closer = [z for z in range(x - dist + 1, x + dist) if inkey(z)]
+    if closer:
+        return ("nearest-not-nearest", x, "%s(%d) = %d but %d is in key and closer" % (who, x, y, closer[0]))
+    return None
+
+
+def oracle_query(st, op, r):
+    """independent judgement of one query of a session: list of (kind, input, detail)."""
+    fn, bad = op["fn"], []
+    if fn in PATTERN_FNS:
+        if not opt_ints(r):
+            return bad
+        mel = op["xs"]
+        for i, y in enumerate(r):
+            if i >= len(mel):
+                break
+            x = mel[i]
+            if fn == "chain":
+                ka, kb = st.key_at(op["keys"], i), st.key_at(op["keys2"], i)
+                if ka is None or kb is None or not (ka["judged"] and kb["judged"]):
+                    continue
+                ina, inb = inkey_fn(ka), inkey_fn(kb)
+                if x is None or not ina(x):
+                    if y is not None:
+                        bad.append(("filter-lets-through", (i, x), "step %d: %r is not in key %d of the inner PFilterByKey, yet the chain gave %r" % (i, x, i, y)))
+                elif y is None:
+                    bad.append(("filter-drops-in-key", (i, x), "step %d: %r is in key %d of the inner PFilterByKey, yet the chain gave a rest" % (i, x, i)))
+                else:
+                    e = judge_nearest(inb, x, y, "step %d: PNearestNoteInKey" % i)
+                    if e:
+                        bad.append(("snap-" + e[0].replace("nearest-", ""), (i, x), e[2]))
+                continue
+            kd = st.key_at(op["keys"], i)
+            if kd is None or not kd["judged"]:
+                continue
+            inkey = inkey_fn(kd)
+            if fn == "pfilter":
+                if y is not None and (y != x or not inkey(y)):
+                    bad.append(("filter-lets-through", (i, x), "step %d: PFilterByKey passed %r for input %r, key of that step %r" % (i, y, x, kd)))
+                if y is None and x is not None and inkey(x):
+                    bad.append(("filter-drops-in-key", (i, x), "step %d: PFilterByKey dropped %r, which is in the key of that step %r" % (i, x, kd)))
+            elif fn == "psnap":
+                if x is None:
+                    if y is not None:
+                        bad.append(("rest", (i, x), "step %d: PNearestNoteInKey turned a rest into %r" % (i, y)))
+                else:
+                    e = judge_nearest(inkey, x, y, "step %d: PNearestNoteInKey" % i)
+                    if e:
+                        bad.append(("snap-" + e[0].replace("nearest-", ""), (i, x), e[2] + ", key of that step %r" % (kd,)))
+            elif fn == "pdegree":
+                if x is None:
+                    if y is not None:
+                        bad.append(("rest", (i, x), "step %d: PDegree turned a rest into %r" % (i, y)))
+                else:
+                    n = len(kd["semis"])
+                    want = kd["tonic"] + kd["semis"][x % n] + kd["osize"] * (x // n)
+                    if y != want:
+                        bad.append(("degree-formula", (i, x), "step %d: PDegree(%d) = %r, formula gives %d for the key of that step %r" % (i, x, y, want, kd)))
+        return bad
+    kd = st.keys[op["slot"]]
+    if not kd["judged"] or not isinstance(r, list):
+        return bad
+    inkey = inkey_fn(kd)
+    xs = op.get("xs", [])
+    if fn in ("get", "getitem"):
+        n = len(kd["semis"])
+        for d, g in zip(xs, r):
+            want = kd["tonic"] + kd["semis"][d % n] + kd["osize"] * (d // n)
+            if g != want:
+                bad.append(("degree-formula", d, "Key.%s(%d) = %r, formula gives %d" % (fn, d, g, want)))
+            elif not inkey(g):
+                bad.append(("degree-not-in-key", d, "Key.%s(%d) = %r is not in the key" % (fn, d, g)))
+        gs = [(d, g) for d, g in zip(xs, r) if type(g) is int]
+        for (d1, g1), (d2, g2) in zip(gs, gs[1:]):
+            if d1 < d2 and not g1 < g2:
+                bad.append(("degree-not-increasing", d2, "Key.get(%d)=%d >= Key.get(%d)=%d" % (d1, g1, d2, g2)))
+    elif fn == "contains":
+        for x, c in zip(xs, r):
+            if c is not inkey(x):
+                bad.append(("membership", x, "(%d in key) = %r, pitch-class set says %r" % (x, c, inkey(x))))
+    elif fn == "nearest":
+        for x, y in zip(xs, r):
+            e = judge_nearest(inkey, x, y, "nearest_note")
+            if e:
+                bad.append(e)
+    return bad
+
+
+def ksrc_term(spec, sname, j):
+    wrap = (lambda t: "(untonic %s)" % t) if spec.get("as_scale") else (lambda t: t)
+    if "const" in spec:
+        return "(KConst %s)" % wrap("(sk %s %d %d)" % (sname, j, spec["const"]))
+    return "(KSeq (rep %d %s))" % (spec["repeats"], lst([wrap("(sk %s %d %d)" % (sname, j, sl)) for sl in spec["seq"]]))
+
+
+def query_term(op, r, sname, j):
+    """Coq boolean: the model, on the definition the key(s) have after the first j configuration operations of
+    the session, agrees with what the implementation returned (None: the result has not even the right shape)"""
+    fn = op["fn"]
+    if fn in PATTERN_FNS:
+        if not opt_ints(r):
+            return None
+        mel, ks = olist(op["xs"]), ksrc_term(op["keys"], sname, j)
+        if fn == "pfilter":
+            return "list_eqb oz (tonal_nextn filter_step %d (mkT %s %s)) %s" % (op["n"], mel, ks, olist(r))
+        if fn == "pdegree":
+            return "list_eqb oz (tonal_nextn degree_step %d (mkT %s %s)) %s" % (op["n"], mel, ks, olist(r))
+        if fn == "psnap":
+            return "snap_prog_ok %d %s %s %s" % (op["n"], mel, ks, olist(r))
+        return "snap_prog_ok %d (tonal_nextn filter_step %d (mkT %s %s)) %s %s" % (
+            op["n"], op["n"], mel, ks, ksrc_term(op["keys2"], sname, j), olist(r))
+    k = "(sk %s %d %d)" % (sname, j, op["slot"])
+    if fn == "semitones":
+        return "list_eqb Z.eqb (key_semitones %s) %s" % (k, zlist(r)) if all_ints(r) else None
+    xs = zlist(op["xs"])
+    if fn in ("get", "getitem"):
+        return "list_eqb Z.eqb (map (key_get %s) %s) %s" % (k, xs, zlist(r)) if all_ints(r) else None
+    if fn == "contains":
+        ok = isinstance(r, list) and all(type(c) is bool for c in r)
+        return "list_eqb Bool.eqb (map (key_contains %s) %s) %s" % (k, xs, lst([blit(c) for c in r])) if ok else None
+    if fn == "nearest":
+        return "near_ok %s %s %s" % (k, xs, zlist(r)) if all_ints(r) else None
+    return None
+
+
+def session_script(ops, upto):
+    """a python script that replays the history of a session up to (and including) operation `upto`"""
+    L = ["import isobar as iso", "from isobar import Scale, Key, PSequence, PFilterByKey, PNearestNoteInKey, PDegree"]
+
+    def src(spec):
+        f = (lambda sl: "k%d.scale" % sl) if spec.get("as_scale") else (lambda sl: "k%d" % sl)
+        if "const" in spec:
+            return f(spec["const"])
+        return "PSequence([%s], %d)" % (", ".join(f(sl) for sl in spec["seq"]), spec["repeats"])
+    for i, op in enumerate(ops[:upto + 1]):
+        k = op["op"]
+        if k == "scale":
+            if op["how"] == "builtin":
+                L.append("s%d = Scale.byname(%r)" % (op["id"], op["name"]))
+            elif op["how"] == "unnamed":
+                L.append("s%d = Scale(%r%s)" % (op["id"], op["semis"], "" if op["osize"] == 12 else ", octave_size=%d" % op["osize"]))
+            else:
+                L.append("s%d = Scale(%r, %r, octave_size=%d)" % (op["id"], op["semis"], op["name"], op["osize"]))
+        elif k == "key":
+            L.append("k%d = Key(%d, s%d)" % (op["slot"], op["tonic"], op["scale"]))
+        elif k == "retune":
+            L.append("k%d.tonic = %d" % (op["slot"], op["tonic"]))
+        elif k == "rescale":
+            L.append("k%d.scale = s%d" % (op["slot"], op["scale"]))
+        else:
+            fn = op["fn"]
+            if fn in PATTERN_FNS:
+                mel = "PSequence(%r, 1)" % (op["xs"],)
+                e = {"pfilter": "PFilterByKey(%s, %s)", "psnap": "PNearestNoteInKey(%s, %s)", "pdegree": "PDegree(%s, %s)",
+                     "chain": "PNearestNoteInKey(PFilterByKey(%s, %s), " + (src(op["keys2"]) if fn == "chain" else "") + ")"}[fn] % (mel, src(op["keys"]))
+                if op.get("split") is not None:
+                    e = "(lambda p: p.nextn(%d) + p.nextn(%d))(%s)" % (op["split"], op["n"] - op["split"], e)
+                else:
+                    e = "%s.nextn(%d)" % (e, op["n"])
+            elif fn == "semitones":
+                e = "k%d.semitones" % op["slot"]
+            else:
+                call = {"get": "k%d.get(x)", "getitem": "k%d[x]", "contains": "(x in k%d)", "nearest": "k%d.nearest_note(x)"}[fn] % op["slot"]
+                e = "[%s for x in %r]" % (call, op["xs"])
+            L.append(("print(%s)   # <- the failing query" if i == upto else "_ = %s") % e)
+    return "\n".join(L)
+
+
+def bad_at(ops, res, oi):
+    """oracle failures of the query at index oi of an executed history"""
+    st = SessionState()
+    for o in ops[:oi]:
+        st.apply(o)
+    return oracle_query(st, ops[oi], res[oi]), st
+
+
+def shrink_history(run, ops, oi, kind):
+    """a shorter history ending in the same query that still fails the oracle in the same way: first without
+    the earlier queries and without the keys the query does not use, then only without the earlier queries"""
+    target = ops[oi]
+    conf = [o for o in ops[:oi] if o["op"] != "q"]
+    used = set()
+    for spec in (target.get("keys"), target.get("keys2")):
+        if spec:
+            used.update([spec["const"]] if "const" in spec else spec["seq"])
+    if "slot" in target:
+        used.add(target["slot"])
+    kept = [o for o in conf if o["op"] == "scale" or o["slot"] in used]
+    sids = {o["scale"] for o in kept if o["op"] in ("key", "rescale")}
+    kept = [o for o in kept if o["op"] != "scale" or o["id"] in sids]
+    for cand in (kept + [target], conf + [target]):
+        if len(cand) >= oi + 1:
+            continue
+        try:
+            res = run.impl("c13_impl", {"sessions": [{"ops": cand}]})["sessions"][0]
+        except Exception:
+            continue
+        if isinstance(res, list) and len(res) == len(cand):
+            bad, _ = bad_at(cand, res, len(cand) - 1)
+            hit = [b for b in bad if b[0] == kind]
+            if hit:
+                return cand, res[-1], hit[0]
+    return None
+
+
+def judge_sessions(run, sessions, outs):
+    """oracle + model comparison of executed sessions.  Returns the number of oracle failures."""
+    header = HEADER
+    terms, meta, n_bad = [], [], 0
+    reported = run.__dict__.setdefault("_c13_reported", set())   # one shrunk replay per (kind, site) and run
+    for si, (sess, res) in enumerate(zip(sessions, outs)):
+        sname = "sess%d" % si
+        st = SessionState()
+        ops = sess["ops"]
+        per_query = []
+        for oi, (op, r) in enumerate(zip(ops, res)):
+            if op["op"] != "q":
+                st.apply(op)
+                if r is not None:       # building / re-configuring a key raised
+                    terms.append("false"); meta.append((si, oi, op, r))
+                continue
+            j = len(st.coq_ops)
+            fn = op["fn"]
+            site = PATTERN_SITE.get(fn, "Key")
+            n_in = len(op.get("xs", [])) or 1
+            run.count(n_in)
+            bad = oracle_query(st, op, r)
+            run.cov["oracle_evaluations"] += n_in
+            seen = set()
+            for kind, x, detail in bad:
+                if kind in seen:
+                    continue
+                seen.add(kind)
+                n_bad += 1
+                if (kind, site) in reported:
+                    continue
+                reported.add((kind, site))
+                h_ops, h_oi, h_r = ops[:oi + 1], oi, r
+                small = shrink_history(run, ops, oi, kind)
+                if small:
+                    h_ops, h_r, (_, x, detail) = small[0], small[1], small[2]
+                    h_oi = len(h_ops) - 1
+                defs = SessionState()
+                for o in h_ops[:h_oi]:
+                    defs.apply(o)
+                run.violation({"kind": kind, "site": site, "history": "session"}, {
+                    "case": {"session": {"ops": h_ops}, "op_index": h_oi, "query": op, "input": x,
+                             "keys_at_that_moment": {"k%d" % sl: d for sl, d in sorted(defs.keys.items())},
+                             "scales": {"s%d" % i: d for i, d in sorted(defs.scales.items())},
+                             "history_shrunk": bool(small), "original_history_ops": oi + 1},
+                    "observed": detail, "returned": h_r, "oracle": "pitch-class-set oracle on the key's own semitones (step i against key i)",
+                    "python": session_script(h_ops, h_oi),
+                    "all_failures_of_this_kind_in_this_query": sum(1 for b in bad if b[0] == kind)})
+            t = query_term(op, r, sname, j)
+            terms.append(t if t is not None else "false")
+            meta.append((si, oi, op, r))
+            per_query.append((oi, bool(bad)))
+            run.dist("session.q.%s" % fn)
+            if fn in PATTERN_FNS:
+                run.dist("session.keysrc.%s" % ("const" if "const" in op["keys"] else "progression"))
+                if "seq" in op["keys"] and any(x is None for x in op["xs"]):
+                    run.dist("session.progression-with-rests")
+        header += "Definition %s : list sop := %s.\n" % (sname, lst(st.coq_ops))
+        names = [sc["name"] if sc["how"] != "unnamed" else "unnamed scale" for sc in st.scales.values()]
+        clash = len(names) - len(set(names))
+        run.dist("session.same-name-scales.%s" % ("0" if clash == 0 else "1-2" if clash < 3 else "3+"))
+        run.nontrivial("session %d %r" % (si, [o for o in ops if o["op"] != "q"]))
+        run.sample({"session": si, "keys": len(st.keys), "ops": len(ops), "first_ops": ops[:4]}, limit=2)
+    failing = run.coq_failing(header, terms, chunk=150)
+    run.cov["traces_validated_against_impl"] += len(terms) - len(failing)
+    for i in failing:
+        si, oi, op, r = meta[i]
+        ops = sessions[si]["ops"]
+        st = SessionState()
+        for o in ops[:oi]:
+            st.apply(o)
+        if op["op"] == "q" and oracle_query(st, op, r):
+            continue          # already reported with the concrete input
+        site = PATTERN_SITE.get(op.get("fn"), "Key") if op["op"] == "q" else "Key"
+        run.violation({"kind": "correspondence", "site": site, "history": "session"}, {
+            "broken": "correspondence model/implementation on %s within a session of several keys (theorems of Props/C13.v no longer speak about this code)" % site,
+            "case": {"session": {"ops": ops[:oi + 1]}, "op_index": oi, "query": op},
+            "observed": r, "python": session_script(ops, oi) if op["op"] == "q" else None,
+            "coq_term": terms[i][:2000]}, found_input=False)
+    return n_bad
+
+
+def run_sessions(run, info, n_sessions):
+    import time
+    t0 = time.time()
+    sessions = [gen_session(run.rng, info) for _ in range(n_sessions)]
+    # one process per session: the driver forks a child of the freshly imported interpreter for each
+    shards = [list(range(i, n_sessions, 12)) for i in range(12) if i < n_sessions]
+    outs = run.impl_parallel("c13_impl", [{"sessions": [sessions[i] for i in sh]} for sh in shards])
+    res = [None] * n_sessions
+    for sh, out in zip(shards, outs):
+        for i, r in zip(sh, out["sessions"]):
+            if not isinstance(r, list):
+                raise CheckError("implementation driver failed on a session: %r" % (r,))
+            res[i] = r
+    t1 = time.time()
+    for i in range(0, n_sessions, 96):      # the definitions of a batch of sessions go into the header of its Coq files
+        judge_sessions(run, sessions[i:i + 96], res[i:i + 96])
+    run.cov["sessions_wall_s"] = {"implementation": round(t1 - t0, 1), "oracle+model": round(time.time() - t1, 1)}
+    run.cov["sessions"] = n_sessions
+
+
 def check(run):
     info = run.impl("c13_impl", {"list": True})
     # 1. exhaustive finite domain: every named scale x 12 tonics x notes 0..127 x degrees -64..64
@@ -199,6 +692,9 @@ def check(run):
         run.dist("user.osize.%d" % o)
     for i in range(0, len(ukeys), 600):
         run_keys(run, ukeys[i:i + 600], False)
+    # 2b. sessions: several keys per process (shared names / tonics / scale objects), re-configuration,
+    #     tonal patterns over key progressions with rests
+    run_sessions(run, info, 60 if run.tier == "quick" else 1000)
     # 3. note names: whole MIDI range and every spelling
     numbers = list(range(-2, 130))
     sp = []
@@ -240,11 +736,36 @@ def check(run):
     run.nontrivial("names")
     run.cov["rule"] = ("one case = one key (scale x tonic) evaluated on its whole note/degree range by Key.get, __contains__, "
                        "nearest_note, PFilterByKey, PNearestNoteInKey, PDegree; distinct by (scale, tonic); non-trivial = scale has >= 1 semitone. "
-                       "nearest_note compared by membership and distance, not identity.")
+                       "nearest_note compared by membership and distance, not identity.  A session (one process: 4-9 keys sharing names/tonics/"
+                       "scale objects, interleaved queries, re-configuration, pattern queries over key progressions with rests) counts as one case, "
+                       "distinct by its sequence of build/re-configure operations.")
+
+
+def replay_session(run, doc):
+    case = doc["case"]
+    ops, oi = case["session"]["ops"], case["op_index"]
+    res = run.impl("c13_impl", {"sessions": [{"ops": ops}]})["sessions"][0]
+    bad = []
+    if isinstance(res, list) and len(res) == len(ops) and ops[oi]["op"] == "q":
+        bad, _ = bad_at(ops, res, oi)
+        print("replay: query %s returned %r" % (json.dumps(ops[oi]), res[oi]))
+    for b in bad:
+        print("REPLAY-FAILS:", b)
+    if bad:
+        print("VIOLATION property=C13 replay=%s" % "(replayed)")
+        return 1
+    if not doc.get("failing_input_found", True):
+        print("replay: the document records a model/implementation disagreement without a failing input; re-running the whole check")
+        if run.build():
+            check(run)
+        return run.finish()
+    return 0
 
 
 def replay(run, doc):
     case = doc.get("case", {})
+    if "session" in case:
+        return replay_session(run, doc)
     key = case.get("key")
     if isinstance(key, str) and "tonic" in case:
         kd = {"name": key, "tonic": case["tonic"]}
